@@ -373,9 +373,13 @@ def mutate(rng, b, t):
     return "identity", bytes(b)
 
 
-def gen_pres(rng, n):
+def gen_pres(rng, n, full=False):
+    """full: the presentation shows all n bytes (any outer limit is >= n)"""
     r = rng.random()
-    lim = lambda: rng.choice([n, n, n, max(0, n - 1), n + 1, n + 5, 0, n // 2, rng.randrange(0, n + 8)])
+    if full:
+        lim = lambda: rng.choice([n, n, n + 1, n + 5, n + 1000])
+    else:
+        lim = lambda: rng.choice([n, n, n, max(0, n - 1), n + 1, n + 5, 0, n // 2, rng.randrange(0, n + 8)])
     if r < 0.25:
         return "f"
     if r < 0.35:
@@ -524,11 +528,11 @@ def run(ctx):
         unordered = has_unordered(t)
         for v, b in encs.get(tid, []):
             add([("encu" if unordered else "enc") + " %s %s" % (tid, v)])
-            add(["rt %s %s %s" % (tid, v, gen_pres(rng, len(b)))])
+            add(["rt %s %s %s" % (tid, v, gen_pres(rng, len(b), full=True))])
             add(["dec %s %s %s" % (tid, b.hex() or "-", gen_pres(rng, len(b)))], mut="valid")
             if tid in FINDING_TYPES:
                 continue
-            if rng.random() < 0.5:
+            if rng.random() < 0.5 and not unordered:
                 v2 = show_value(t, gen_value(rng, t))
                 add(["enc2 %s %s %s" % (tid, v, v2)])
             if rng.random() < 0.5:
